@@ -238,6 +238,8 @@ class World:
                 return
             method = op[1]
             h, wire = self.known[op[2] % len(self.known)]
+            # (the hash as the caller may hold it: the bytes object a call returned, a bytearray, a bytes subclass)
+            h = (bytes, bytearray, libx.UserBytes)[(op[2] // 7 + len(method)) % 3](h)
             if method == 'getblock':
                 blk = {'version': 2, 'prev': bytes(32), 'root': bytes(32), 'time': 1, 'bits': 2, 'nonce': 3, 'txs': []}
                 self.reply('"%s"' % W.enc_block(blk).hex()); r = self.call(method, p.getblock, h)
@@ -381,6 +383,26 @@ class World:
                 if self.call('getblockcount', p.getblockcount) != i % 1000:
                     raise Violation('soak/result', 'call number %d on this proxy returned a wrong result' % i)
                 if i % 64 == 0:
+                    self.check_ids()
+                    del self.conn.reqs[:]
+                    self.calls = 0
+        elif k == 'objects':
+            # a long run of DISTINCT transactions / blocks fetched through the same proxy, the first one asked for again at the end
+            # (and in the middle): every reply is the hex that was served for THAT call
+            n_ = op[1]
+
+            def txm(i):
+                return {'version': 2, 'vin': [(bytes([i % 251]) * 32, i, b'\x51' * (i % 5), 0xffffffff - i)], 'vout': [(i * 3 + 1, b'\x51')],
+                        'wit': [[b'w%d' % i]] if i % 3 == 0 else None, 'locktime': i}
+            order = list(range(n_)) + [0, n_ // 2, 1, 0]
+            for j, i in enumerate(order):
+                E = W.enc_tx(txm(i))
+                self.reply('"%s"' % E.hex())
+                r = self.call('getrawtransaction', p.getrawtransaction, bytes([i % 256, i // 256 % 256]) * 16)
+                if r.serialize() != E:
+                    raise Violation('soak/object', 'getrawtransaction number %d on this proxy (transaction %d of %d distinct ones%s) returned another '
+                                    'transaction than the one served' % (j, i, n_, ', asked again' if j >= n_ else ''))
+                if j % 64 == 0:
                     self.check_ids()
                     del self.conn.reqs[:]
                     self.calls = 0
@@ -571,6 +593,8 @@ def t_soak(ctx):
     ctx.run({'ops': [['get_hash', 'getbestblockhash', '11' * 32], ['calls', n], ['error', 'getbalance', 'dict', -5], ['calls', 300],
                      ['use_hash', 'getblock', 0], ['recv', 'getbalance', 2099999997690000, 'fixed8']]})
     ctx.exhaustive.append('%d consecutive calls on one proxy (ids strictly increasing throughout, across 2^16), then an error, then more calls' % n)
+    ctx.run({'ops': [['objects', 700], ['calls', 10], ['objects', 40]]})
+    ctx.exhaustive.append('700 distinct transactions fetched through one proxy, the first ones asked for again')
 
 
 TASKS = [('stateful', (t_stateful, 8)), ('random', (t_random, 6)), ('amounts', (t_amounts, 2)), ('soak', (t_soak, 1))]
